@@ -1,3 +1,717 @@
+// simcheck runs one property's simulated cases on a pool of worker processes,
+// aggregates coverage into the evidence file, minimises violations, writes
+// replay files and matches them against the committed known findings.
 package main
 
-func main() {}
+import (
+	"bufio"
+	"encoding/json"
+	"flag"
+	"fmt"
+	"os"
+	"os/exec"
+	"path/filepath"
+	"runtime"
+	"sort"
+	"strconv"
+	"strings"
+	"sync"
+	"time"
+
+	"verifsim/props"
+)
+
+var (
+	fProp     = flag.String("prop", "", "property id")
+	fTier     = flag.String("tier", "quick", "quick|thorough")
+	fSeed     = flag.Uint64("seed", 1, "VERIF_SEED")
+	fEvidence = flag.String("evidence", "", "evidence file to write")
+	fReplayD  = flag.String("replaydir", "", "directory for replay files")
+	fKnown    = flag.String("known", "", "known_findings.json")
+	fWorkers  = flag.Int("workers", 0, "worker processes (default: number of CPUs)")
+	fWorker   = flag.String("worker", "", "internal: shard i/n")
+	fFrom     = flag.Int("from", 0, "internal: first index for this worker")
+	fReplay   = flag.String("replay", "", "replay one case file")
+	fShrink   = flag.String("shrink", "", "minimise one case file")
+	fCount    = flag.Int("count", 0, "override number of cases")
+	fDump     = flag.Bool("dump", false, "print every result line")
+	fOnly     = flag.Int("only", -1, "run only case index i (in-process) and print the result")
+	fList     = flag.Bool("list", false, "list registered properties")
+)
+
+func main() {
+	flag.Parse()
+	if *fList {
+		fmt.Println(strings.Join(props.IDs(), " "))
+		return
+	}
+	p := props.Get(*fProp)
+	if p == nil {
+		fmt.Fprintf(os.Stderr, "simcheck: unknown property %q (have %v)\n", *fProp, props.IDs())
+		os.Exit(2)
+	}
+	switch {
+	case *fWorker != "":
+		worker(p)
+	case *fReplay != "":
+		os.Exit(replay(p, *fReplay))
+	case *fShrink != "":
+		os.Exit(shrinkFile(p, *fShrink))
+	case *fOnly >= 0:
+		c := p.Make(*fTier, *fSeed, *fOnly)
+		r := props.Execute(p, c, false, false)
+		b, _ := json.MarshalIndent(r, "", " ")
+		fmt.Println(string(b))
+	default:
+		os.Exit(run(p))
+	}
+}
+
+// ---------------------------------------------------------------------------
+// worker
+
+type raceWatch struct {
+	path string
+	off  int64
+}
+
+func newRaceWatch() *raceWatch {
+	g := os.Getenv("GORACE")
+	for _, f := range strings.Fields(g) {
+		if strings.HasPrefix(f, "log_path=") {
+			return &raceWatch{path: strings.TrimPrefix(f, "log_path=") + "." + strconv.Itoa(os.Getpid())}
+		}
+	}
+	return nil
+}
+
+func (w *raceWatch) poll() string {
+	if w == nil {
+		return ""
+	}
+	b, err := os.ReadFile(w.path)
+	if err != nil || int64(len(b)) <= w.off {
+		return ""
+	}
+	s := string(b[w.off:])
+	w.off = int64(len(b))
+	return s
+}
+
+// raceSig builds a canonical signature from a race report: the top library
+// frames of the two conflicting accesses.
+func raceSig(rep string) string {
+	var tops []string
+	lines := strings.Split(rep, "\n")
+	for i, l := range lines {
+		if (strings.Contains(l, " at 0x") && strings.Contains(l, "by goroutine")) || strings.Contains(l, "by main goroutine") {
+			if !(strings.HasPrefix(strings.TrimSpace(l), "Read") || strings.HasPrefix(strings.TrimSpace(l), "Write") || strings.HasPrefix(strings.TrimSpace(l), "Previous")) {
+				continue
+			}
+			for j := i + 1; j < len(lines) && strings.TrimSpace(lines[j]) != ""; j++ {
+				f := strings.TrimSpace(lines[j])
+				if strings.HasPrefix(f, "gitee.com/Trisia/gotlcp/") && !strings.HasPrefix(f, "gitee.com/Trisia/gotlcp/vs.") {
+					f = strings.TrimPrefix(f, "gitee.com/Trisia/gotlcp/")
+					if k := strings.LastIndex(f, "("); k > 0 {
+						f = f[:k]
+					}
+					tops = append(tops, f)
+					break
+				}
+			}
+			if len(tops) == 2 {
+				break
+			}
+		}
+	}
+	sort.Strings(tops)
+	return "race " + strings.Join(tops, " / ")
+}
+
+func worker(p props.Prop) {
+	var wi, wn int
+	fmt.Sscanf(*fWorker, "%d/%d", &wi, &wn)
+	n := p.Count(*fTier)
+	if *fCount > 0 {
+		n = *fCount
+	}
+	rw := newRaceWatch()
+	out := bufio.NewWriter(os.Stdout)
+	defer out.Flush()
+	enc := json.NewEncoder(out)
+	samples := 0
+	for i := wi; i < n; i += wn {
+		if i < *fFrom {
+			continue
+		}
+		c := p.Make(*fTier, *fSeed, i)
+		r := props.Execute(p, c, false, false)
+		if rep := rw.poll(); rep != "" {
+			r.RaceBytes = len(rep)
+			r.V = append(r.V, props.Violation{Class: "data-race", Sig: p.ID() + " " + raceSig(rep), Detail: clip(rep, 6000)})
+		}
+		if len(r.V) == 0 && r.Infra == "" {
+			r.Tape = nil
+			if samples >= 2 {
+				r.Sample = nil
+			}
+			samples++
+		}
+		if err := enc.Encode(r); err != nil {
+			fmt.Fprintln(os.Stderr, "worker encode:", err)
+			os.Exit(2)
+		}
+		out.Flush()
+		if strings.Contains(r.Infra, "watchdog") {
+			// a task is still running somewhere in this process: it cannot be reused
+			os.Exit(3)
+		}
+	}
+}
+
+func clip(s string, n int) string {
+	if len(s) > n {
+		return s[:n] + "..."
+	}
+	return s
+}
+
+// ---------------------------------------------------------------------------
+// known findings
+
+type finding struct {
+	Property string `json:"property"`
+	Sig      string `json:"sig"`
+	Status   string `json:"status"` // known | fixed
+	Commit   string `json:"commit,omitempty"`
+	What     string `json:"what"`
+}
+
+type knownFile struct {
+	Findings []finding `json:"findings"`
+}
+
+func loadKnown(path string) []finding {
+	if path == "" {
+		return nil
+	}
+	b, err := os.ReadFile(path)
+	if err != nil {
+		return nil
+	}
+	var k knownFile
+	if err := json.Unmarshal(b, &k); err != nil {
+		fmt.Fprintln(os.Stderr, "simcheck: cannot parse", path, err)
+		os.Exit(2)
+	}
+	return k.Findings
+}
+
+func matchKnown(fs []finding, prop, sig string) *finding {
+	for i := range fs {
+		f := &fs[i]
+		if f.Property != prop || f.Status != "known" {
+			continue
+		}
+		if f.Sig == sig || (strings.HasSuffix(f.Sig, "*") && strings.HasPrefix(sig, strings.TrimSuffix(f.Sig, "*"))) {
+			return f
+		}
+	}
+	return nil
+}
+
+// ---------------------------------------------------------------------------
+// driver
+
+type agg struct {
+	mu        sync.Mutex
+	evals     int
+	keys      map[string]bool
+	traces    map[string]bool
+	outcomes  map[string]int
+	stats     map[string]int
+	simNs     int64
+	steps     int64
+	trivial   int
+	samples   []interface{}
+	viol      []*props.Result
+	infra     []*props.Result
+	wallUs    int64
+	raceBytes int
+}
+
+func run(p props.Prop) int {
+	t0 := time.Now()
+	nw := *fWorkers
+	if nw <= 0 {
+		nw = runtime.NumCPU()
+	}
+	n := p.Count(*fTier)
+	if *fCount > 0 {
+		n = *fCount
+	}
+	if nw > n {
+		nw = n
+	}
+	a := &agg{keys: map[string]bool{}, traces: map[string]bool{}, outcomes: map[string]int{}, stats: map[string]int{}}
+	tmp, err := os.MkdirTemp("/var/tmp", "simcheck-race-")
+	if err != nil {
+		fmt.Fprintln(os.Stderr, err)
+		return 2
+	}
+	defer os.RemoveAll(tmp)
+	fmt.Printf("simcheck: property=%s tier=%s seed=%d cases=%d workers=%d\n", p.ID(), *fTier, *fSeed, n, nw)
+	var wg sync.WaitGroup
+	infraExit := false
+	for w := 0; w < nw; w++ {
+		wg.Add(1)
+		go func(w int) {
+			defer wg.Done()
+			from := 0
+			for attempt := 0; attempt < 50; attempt++ {
+				last, code := runWorker(p, w, nw, from, n, tmp, a)
+				if code == 0 {
+					return
+				}
+				if code == 3 && last >= 0 {
+					from = last + 1
+					continue
+				}
+				a.mu.Lock()
+				infraExit = true
+				a.mu.Unlock()
+				fmt.Fprintf(os.Stderr, "simcheck: worker %d exited with code %d after case %d\n", w, code, last)
+				return
+			}
+		}(w)
+	}
+	wg.Wait()
+	wall := time.Since(t0).Seconds()
+
+	known := loadKnown(*fKnown)
+	exit := 0
+	if infraExit || len(a.infra) > 0 {
+		exit = 2
+		for i, r := range a.infra {
+			if i < 5 {
+				fmt.Printf("INFRA case=%d %s\n", r.Index, r.Infra)
+			}
+		}
+	}
+	// violations: group by signature, minimise one representative per signature
+	bySig := map[string][]*props.Result{}
+	var sigs []string
+	for _, r := range a.viol {
+		for _, v := range r.V {
+			if _, ok := bySig[v.Sig]; !ok {
+				sigs = append(sigs, v.Sig)
+			}
+			bySig[v.Sig] = append(bySig[v.Sig], r)
+		}
+	}
+	sort.Strings(sigs)
+	unknown := 0
+	knownHit := map[string]int{}
+	for _, sig := range sigs {
+		rs := bySig[sig]
+		sort.Slice(rs, func(i, j int) bool { return len(rs[i].Tape) < len(rs[j].Tape) })
+		if f := matchKnown(known, p.ID(), sig); f != nil {
+			knownHit[f.Sig] += len(rs)
+			continue
+		}
+		unknown++
+		if unknown > 8 {
+			fmt.Printf("VIOLATION property=%s replay=(not minimised: more than 8 distinct signatures) sig=%q cases=%d\n", p.ID(), sig, len(rs))
+			continue
+		}
+		path := reportViolation(p, rs[0], sig)
+		fmt.Printf("VIOLATION property=%s replay=%s\n", p.ID(), path)
+		fmt.Printf("  sig: %s\n  cases with this signature: %d (first index %d)\n", sig, len(rs), rs[0].Index)
+		for _, v := range rs[0].V {
+			if v.Sig == sig {
+				fmt.Printf("  detail: %s\n", clip(v.Detail, 1500))
+				break
+			}
+		}
+		exit1(&exit)
+	}
+	for _, f := range known {
+		if f.Property == p.ID() && f.Status == "known" && knownHit[f.Sig] > 0 {
+			fmt.Printf("KNOWN-FINDING: property=%s %s (sig %q, %d cases this run)\n", p.ID(), f.What, f.Sig, knownHit[f.Sig])
+		}
+	}
+	writeEvidence(p, a, wall, len(sigs), knownHit)
+	fmt.Printf("simcheck: %s %s: evaluations=%d distinct=%d violations(sigs)=%d unknown=%d wall=%.1fs\n", p.ID(), *fTier, a.evals, len(a.keys), len(sigs), unknown, wall)
+	return exit
+}
+
+func exit1(e *int) {
+	if *e == 0 {
+		*e = 1
+	}
+}
+
+func runWorker(p props.Prop, w, nw, from, n int, tmp string, a *agg) (last int, code int) {
+	last = -1
+	exe, _ := os.Executable()
+	args := []string{"-prop", p.ID(), "-tier", *fTier, "-seed", strconv.FormatUint(*fSeed, 10), "-worker", fmt.Sprintf("%d/%d", w, nw), "-from", strconv.Itoa(from), "-count", strconv.Itoa(n)}
+	cmd := exec.Command(exe, args...)
+	cmd.Env = append(os.Environ(), "GOMAXPROCS=2", "GORACE=halt_on_error=0 exitcode=0 history_size=5 log_path="+filepath.Join(tmp, fmt.Sprintf("race-w%d-%d", w, from)))
+	cmd.Stderr = os.Stderr
+	out, err := cmd.StdoutPipe()
+	if err != nil {
+		return last, 2
+	}
+	if err := cmd.Start(); err != nil {
+		fmt.Fprintln(os.Stderr, "simcheck: start worker:", err)
+		return last, 2
+	}
+	sc := bufio.NewScanner(out)
+	sc.Buffer(make([]byte, 1<<20), 1<<28)
+	for sc.Scan() {
+		var r props.Result
+		if err := json.Unmarshal(sc.Bytes(), &r); err != nil {
+			fmt.Fprintln(os.Stderr, "simcheck: bad worker line:", err, clip(sc.Text(), 200))
+			continue
+		}
+		last = r.Index
+		if *fDump {
+			fmt.Println(sc.Text())
+		}
+		a.add(&r)
+	}
+	err = cmd.Wait()
+	if err != nil {
+		if ee, ok := err.(*exec.ExitError); ok {
+			return last, ee.ExitCode()
+		}
+		return last, 2
+	}
+	return last, 0
+}
+
+func (a *agg) add(r *props.Result) {
+	a.mu.Lock()
+	defer a.mu.Unlock()
+	a.evals++
+	if r.Trivial {
+		a.trivial++
+	} else if r.Key != "" {
+		a.keys[r.Key] = true
+	}
+	a.traces[r.Trace] = true
+	a.outcomes[clip(r.Outcome, 80)]++
+	for k, v := range r.Stats {
+		a.stats[k] += v
+	}
+	a.simNs += r.SimNs
+	a.steps += int64(r.Steps)
+	a.wallUs += r.WallUs
+	a.raceBytes += r.RaceBytes
+	if r.Sample != nil && len(a.samples) < 3 {
+		a.samples = append(a.samples, map[string]interface{}{"index": r.Index, "case": r.Sample, "outcome": r.Outcome, "steps": r.Steps, "sim_ms": r.SimNs / 1e6})
+	}
+	if len(r.V) > 0 {
+		a.viol = append(a.viol, r)
+	}
+	if r.Infra != "" {
+		a.infra = append(a.infra, r)
+	}
+}
+
+// ---------------------------------------------------------------------------
+// minimisation and replay files
+
+func hasSig(r *props.Result, sig string) bool {
+	for _, v := range r.V {
+		if v.Sig == sig {
+			return true
+		}
+	}
+	return false
+}
+
+// shrink minimises the tape while the same signature persists.
+func shrink(p props.Prop, c *props.Case, sig string, budget int, deadline time.Time) (*props.Case, *props.Result, int) {
+	runs := 0
+	best := append([]uint32(nil), c.Tape...)
+	var bestRes *props.Result
+	try := func(t []uint32) bool {
+		if runs >= budget || time.Now().After(deadline) {
+			return false
+		}
+		runs++
+		cc := *c
+		cc.Tape = t
+		r := props.Execute(p, &cc, false, true)
+		if r.Infra == "" && hasSig(r, sig) {
+			// keep what was actually consumed, minus trailing zeros (zero padding is implicit)
+			t2 := append([]uint32(nil), r.Tape...)
+			for len(t2) > 0 && t2[len(t2)-1] == 0 {
+				t2 = t2[:len(t2)-1]
+			}
+			best, bestRes = t2, r
+			return true
+		}
+		return false
+	}
+	if !try(best) {
+		return c, nil, runs
+	}
+	// 1. shortest prefix
+	lo, hi := 0, len(best)
+	for lo < hi {
+		mid := (lo + hi) / 2
+		if try(append([]uint32(nil), best[:mid]...)) {
+			hi = len(best)
+			if hi > mid {
+				hi = mid
+			}
+		} else {
+			lo = mid + 1
+		}
+		if runs >= budget {
+			break
+		}
+	}
+	// 2. delete chunks, 3. zero elements
+	for pass := 0; pass < 3; pass++ {
+		improved := false
+		for size := 16; size >= 1; size /= 2 {
+			for i := 0; i+size <= len(best); {
+				t := append(append([]uint32(nil), best[:i]...), best[i+size:]...)
+				if try(t) {
+					improved = true
+				} else {
+					i += size
+				}
+				if runs >= budget || time.Now().After(deadline) {
+					goto done
+				}
+			}
+		}
+		for i := len(best) - 1; i >= 0; i-- {
+			if i < len(best) && best[i] != 0 {
+				t := append([]uint32(nil), best...)
+				t[i] = 0
+				if try(t) {
+					improved = true
+				}
+			}
+			if runs >= budget || time.Now().After(deadline) {
+				goto done
+			}
+		}
+		if !improved {
+			break
+		}
+	}
+done:
+	out := *c
+	out.Tape = best
+	return &out, bestRes, runs
+}
+
+func reportViolation(p props.Prop, r *props.Result, sig string) string {
+	c := p.Make(*fTier, *fSeed, r.Index)
+	c.Tape = r.Tape
+	orig := len(c.Tape)
+	mc, mr, runs := shrink(p, c, sig, 400, time.Now().Add(90*time.Second))
+	note := ""
+	if mr == nil {
+		// could not reproduce in this process with zero padding: keep the full tape
+		mc, mr = c, r
+		note = "not minimised: did not reproduce under re-execution with a padded tape"
+	} else {
+		// final strict re-execution to record the exact tape
+		fc := *mc
+		fr := props.Execute(p, &fc, false, true)
+		if hasSig(fr, sig) {
+			mc.Tape = fr.Tape
+			mr = fr
+		}
+		note = fmt.Sprintf("minimised from %d to %d choices in %d re-executions", orig, len(mc.Tape), runs)
+	}
+	for i := range mr.V {
+		if mr.V[i].Sig == sig {
+			v := mr.V[i]
+			mc.Violation = &v
+		}
+	}
+	mc.Name = mr.Name
+	mc.Note = note
+	if mr.Sample != nil {
+		b, _ := json.Marshal(mr.Sample)
+		mc.Note += "; case: " + string(b)
+	}
+	dir := *fReplayD
+	if dir == "" {
+		dir = "."
+	}
+	os.MkdirAll(dir, 0755)
+	path := filepath.Join(dir, fmt.Sprintf("%s-%s.json", p.ID(), sanitize(sig)))
+	b, _ := json.MarshalIndent(mc, "", " ")
+	os.WriteFile(path, b, 0644)
+	// replay in a fresh process: must reproduce
+	exe, _ := os.Executable()
+	cmd := exec.Command(exe, "-prop", p.ID(), "-replay", path)
+	cmd.Env = append(os.Environ(), "GORACE=halt_on_error=0 exitcode=0 history_size=5 log_path="+filepath.Join(os.TempDir(), "simcheck-replay-race"))
+	outb, _ := cmd.CombinedOutput()
+	if !strings.Contains(string(outb), "REPRODUCED") {
+		fmt.Printf("  warning: fresh-process replay of %s did not reproduce: %s\n", path, clip(string(outb), 400))
+	}
+	return path
+}
+
+func sanitize(s string) string {
+	var b strings.Builder
+	for _, r := range s {
+		switch {
+		case r >= 'a' && r <= 'z', r >= 'A' && r <= 'Z', r >= '0' && r <= '9', r == '-', r == '.':
+			b.WriteRune(r)
+		default:
+			b.WriteRune('_')
+		}
+	}
+	out := b.String()
+	if len(out) > 100 {
+		out = out[:100]
+	}
+	return out
+}
+
+func loadCase(path string) (*props.Case, error) {
+	b, err := os.ReadFile(path)
+	if err != nil {
+		return nil, err
+	}
+	var c props.Case
+	if err := json.Unmarshal(b, &c); err != nil {
+		return nil, err
+	}
+	return &c, nil
+}
+
+func replay(p props.Prop, path string) int {
+	c, err := loadCase(path)
+	if err != nil {
+		fmt.Fprintln(os.Stderr, "simcheck:", err)
+		return 2
+	}
+	rw := newRaceWatch()
+	r := props.Execute(p, c, true, false)
+	if rep := rw.poll(); rep != "" {
+		r.V = append(r.V, props.Violation{Class: "data-race", Sig: p.ID() + " " + raceSig(rep), Detail: clip(rep, 6000)})
+		if r.Infra == "replay diverged from the recorded tape" {
+			r.Infra = ""
+		}
+	}
+	if r.Infra != "" {
+		fmt.Printf("INFRA %s\n", r.Infra)
+		return 2
+	}
+	want := ""
+	if c.Violation != nil {
+		want = c.Violation.Sig
+	}
+	for _, v := range r.V {
+		fmt.Printf("violation class=%s sig=%q\n%s\n", v.Class, v.Sig, clip(v.Detail, 4000))
+	}
+	known := loadKnown(*fKnown)
+	if len(r.V) == 0 {
+		fmt.Printf("replay: no violation (outcome %s, steps %d, trace %s)\n", r.Outcome, r.Steps, r.Trace)
+		return 0
+	}
+	if want == "" || hasSig(r, want) {
+		fmt.Printf("REPRODUCED steps=%d trace=%s\n", r.Steps, r.Trace)
+	}
+	for _, v := range r.V {
+		if matchKnown(known, p.ID(), v.Sig) == nil {
+			fmt.Printf("VIOLATION property=%s replay=%s\n", p.ID(), path)
+			return 1
+		}
+	}
+	fmt.Printf("KNOWN-FINDING: property=%s (replayed)\n", p.ID())
+	return 0
+}
+
+func shrinkFile(p props.Prop, path string) int {
+	c, err := loadCase(path)
+	if err != nil || c.Violation == nil {
+		fmt.Fprintln(os.Stderr, "simcheck: need a case file with a violation", err)
+		return 2
+	}
+	mc, mr, runs := shrink(p, c, c.Violation.Sig, 2000, time.Now().Add(10*time.Minute))
+	if mr == nil {
+		fmt.Println("did not reproduce")
+		return 2
+	}
+	b, _ := json.MarshalIndent(mc, "", " ")
+	os.WriteFile(path+".min", b, 0644)
+	fmt.Printf("minimised %d -> %d choices in %d runs: %s.min\n", len(c.Tape), len(mc.Tape), runs, path)
+	return 0
+}
+
+// ---------------------------------------------------------------------------
+// evidence
+
+func writeEvidence(p props.Prop, a *agg, wall float64, nsig int, knownHit map[string]int) {
+	if *fEvidence == "" {
+		return
+	}
+	real, stub := p.Components()
+	type kv struct {
+		K string
+		V int
+	}
+	var outc []kv
+	for k, v := range a.outcomes {
+		outc = append(outc, kv{k, v})
+	}
+	sort.Slice(outc, func(i, j int) bool { return outc[i].V > outc[j].V || (outc[i].V == outc[j].V && outc[i].K < outc[j].K) })
+	if len(outc) > 25 {
+		outc = outc[:25]
+	}
+	outm := map[string]int{}
+	for _, e := range outc {
+		outm[e.K] = e.V
+	}
+	samples := a.samples
+	if len(samples) == 0 {
+		samples = []interface{}{"(no sample recorded)"}
+	}
+	cov := map[string]interface{}{
+		"evaluations":          a.evals,
+		"distinct_nontrivial":  len(a.keys),
+		"trivial":              a.trivial,
+		"rule":                 p.Rule(),
+		"samples":              samples,
+		"exhaustive":           false,
+		"simulated_seconds":    float64(a.simNs) / 1e9,
+		"scheduler_steps":      a.steps,
+		"distinct_schedules":   len(a.traces),
+		"runs_per_hour":        int(float64(a.evals) / wall * 3600),
+		"fault_and_probe_hits": a.stats,
+		"outcomes_top":         outm,
+		"components_real":      real,
+		"components_stub":      stub,
+		"violation_signatures": nsig,
+		"known_findings_hit":   knownHit,
+		"workers":              runtime.NumCPU(),
+	}
+	ev := map[string]interface{}{
+		"property_id": p.ID(),
+		"tier":        *fTier,
+		"seed":        *fSeed,
+		"level":       p.Level(),
+		"coverage":    cov,
+		"assumptions": p.Assumptions(),
+		"wall_s":      wall,
+		"violations":  nsig,
+	}
+	b, _ := json.MarshalIndent(ev, "", " ")
+	os.MkdirAll(filepath.Dir(*fEvidence), 0755)
+	if err := os.WriteFile(*fEvidence, b, 0644); err != nil {
+		fmt.Fprintln(os.Stderr, "simcheck: evidence:", err)
+	}
+}
